@@ -12,6 +12,7 @@ CONSTANTS
   MaxOps = 5
   Dev = {"replay-unstored"}
   Anns <- MCAnns
+  InvOf <- MCInvOf
 INIT Init
 NEXT Next
 VIEW view
